@@ -306,4 +306,20 @@ def partInfo (hs : List (Bytes × Bytes)) : Info :=
       filename := (paramGet ps "filename".toUTF8.toList).map stripQuotes,
       ctype := ct }
 
+/-! ### process_multipart_form_data / _old_process_multipart: the parameter dict -/
+
+/-- `if name in params: (promote to list) append(value) else params[name] = value` on an
+    insertion-ordered association list; a key with one value is delivered bare, with several as a list -/
+def paramAdd {α : Type} (ps : List (Bytes × List α)) (k : Bytes) (v : α) : List (Bytes × List α) :=
+  match ps with
+  | [] => [(k, [v])]
+  | (k', vs) :: t => if k' = k then (k', vs ++ [v]) :: t else (k', vs) :: paramAdd t k v
+
+def assemble {α : Type} (named : List (Bytes × α)) : List (Bytes × List α) :=
+  named.foldl (fun ps kv => paramAdd ps kv.1 kv.2) []
+
+/-- form-data: parts with a name become parameters (wire index as the value), the others stay parts -/
+def formParams (infos : List Info) : List (Bytes × List Nat) :=
+  assemble ((infos.zipIdx).filterMap fun (i, idx) => i.name.map fun n => (n, idx))
+
 end CpModel.Multipart
